@@ -78,6 +78,13 @@ def main(tier, replay=None):
         return chk.finish()
     import c03_simd
     c03_simd.run(chk, snap, drv)
+    # the same for the portable decoders of raid/int.c, raid/raid.c: coq/Gen/IntRecProgs.v
+    try:
+        import c03_int
+        c03_int.run(chk, snap, drv)
+    except Exception as e:
+        import traceback
+        chk.violation('int_rec', 'portable-decoder translation step failed: %s' % e, {'traceback': traceback.format_exc()[-2000:]}, no_input=True)
     ob = check_obligations('C03')
     proof_coverage(chk, ob, 'make -f Makefile.coq -k Props/Properties_C03.vo (coqc 8.16.1, full .vo) + Print Assumptions',
                    ['Coq 8.16.1 kernel incl. vm_compute', 'MathComp 1.15 (ssreflect, algebra: poly root counting, matrices)',
